@@ -321,6 +321,9 @@ func IPl(i Term) Term {
 
 // ctorArgs splits "(name a b c)" into its n top-level arguments.
 func ctorArgs(s, name string, n int) ([]string, bool) {
+	if v, ok := knownCtor[s]; ok {
+		s = v // a defined name whose definition is a constructor application: fold selectors through it
+	}
 	pre := "(" + name + " "
 	if !strings.HasPrefix(s, pre) || !strings.HasSuffix(s, ")") {
 		return nil, false
